@@ -1,9 +1,9 @@
 """C08 - SeqNum ring + BitField window: correspondence with connection.py + monitors."""
-from harness import core
+from harness import core, connlib
 
 PROP = "C08"
 LEAN_MODULES = ["MpgsModel.Props.C08"]
-MODEL_MODULES = ["MpgsModel.Model.SeqNum"]
+MODEL_MODULES = ["MpgsModel.Model.SeqNum", "MpgsModel.Model.Conn", "MpgsModel.Model.ToyAead"]
 NS = "Mpgs.Seq."
 THEOREMS = [
     (NS + "C08_add_ring", "full"),
@@ -26,7 +26,9 @@ ASSUMPTIONS = [
 RULE = ("op sequences on the real SeqNum/BitField classes: arithmetic and comparisons on boundary-heavy values "
         "(1, 2, 32767..32769, 65534, 65535, random) with offsets around 0, +-32767, +-65535 and far outside; window histories "
         "for widths 8..256 straddling the wrap with gaps, repeats, stale and far-ahead inserts, dump of (current, bits); the "
-        "ack predicate through the real _handle_ack_bits; non-trivial = the case crosses the wrap or reports a duplicate/error")
+        "ack predicate through the real _handle_ack_bits; non-trivial = the case crosses the wrap or reports a duplicate/error; plus the "
+        "windows as two real connected endpoints use them: a datagram held back and arriving exactly 1..40 behind the newest (edge 32), "
+        "also across the wrap, and lossy/reordered two-party histories - accept/drop decisions and the (ack, ack_bits) of every header")
 
 EDGE = [0, 1, 2, 3, 31, 32, 33, 255, 256, 257, 32766, 32767, 32768, 32769, 65533, 65534, 65535]
 OFFS = [0, 1, 2, 31, 32, 33, 34, 255, 256, 257, 32766, 32767, 32768, 32769, 65534, 65535, 65536, 131070, 131071, 200000]
@@ -339,3 +341,34 @@ def run(ctx):
         if c[0].startswith("case w"):
             monitor_window(impl, c, ctx)
     monitor_ring(impl, ctx, ctx.scale(70000, 65535 * 4 + 7))
+    if ctx.failures:
+        return
+    # ---- the same windows inside two connected endpoints
+    real = connlib.Real()
+    ccases = []
+    for L in range(1, 41):
+        ccases.append(connlib.late_case("late%d" % L, L, held=rng.randint(0, 5),
+                                        start={"ss": 65535 - rng.randint(0, L + 4), "sm": 65000} if L % 2 else None))
+    for i in range(ctx.scale(20, 300)):
+        ccases.append(connlib.gen_two_party(real, rng, "r%d" % i, steps=rng.choice([60, 120]), loss=0.2, dup=0.3, delay=0.6,
+                                            max_delay=rng.choice([200, 800, 2000]), replay=0.1, sizes=[8, 20, 60], send_rate=0.3,
+                                            si=16, ka=rng.choice([15, 32]), heal=False,
+                                            start={"ss": 65535 - rng.randint(0, 40), "sm": 65400, "sf": 1} if i % 2 else None))
+    real2 = connlib.Real()
+
+    def cpost(op, out):
+        k = op.split()[0]
+        if k == "recv":
+            return connlib.ev_filter(out, ("drop",))
+        if k == "build" and out.startswith("pkt"):
+            kv = dict(x.split("=", 1) for x in out.split()[1:])
+            return "pkt seq=%s ack=%s bits=%s" % (kv["seq"], kv["ack"], kv["bits"])
+        if k == "dump":
+            return connlib.dump_fields(out, ["bp", "bm"])
+        return None
+    logs, bad = connlib.run_cases(ctx, real2, ccases, connlib.make_post(cpost), "Conn(receive window)", RULE,
+                                  lambda c, o: any("drop" in x for x in o), snapshots=False)
+    for c in ccases:
+        connlib.window_monitor(c, logs.get(core.case_id(c), []), ctx)
+        if ctx.failures:
+            return
